@@ -774,6 +774,14 @@ class Interp:
             if name in ("transpose", "reshape", "tobytes", "copy", "flatten"):
                 return Builtin(f"ndarray.{name}", lambda *a, _v=v, _n=name, **k: self._arr_method(_v, _n, a, k))
         elif isinstance(v, (str, list, dict, tuple, set, frozenset)):
+            if default is not KeyError:
+                # getattr(<dict / list / str / number>, name, default): the default when the real type has no such attribute
+                try:
+                    return self._pymethod(v, name)
+                except PyExc as e:
+                    if e.etype == "AttributeError":
+                        return default
+                    raise
             return self._pymethod(v, name)
         elif isinstance(v, slice) and name in ("start", "stop", "step"):
             return getattr(v, name)
